@@ -151,19 +151,20 @@ def padFor (n : Nat) : Option Nat :=
 
 def notPad (c : Char) : Bool := c != '='
 
-/-- strict decoder: `body` is the text up to the first `'='`, `tail` the rest. With padding the
-    tail must be exactly the canonical number of `'='`; without padding there must be no `'='`
-    at all (`RequireNone`). -/
+/-- the text from the first `'='` on: with padding exactly the canonical number of `'='`
+    (`RequireCanonical`), without padding nothing at all (`RequireNone`: no `'='` anywhere). -/
+def tailOk (pad : Bool) (bodyLen : Nat) (tail : List Char) : Bool :=
+  if pad then
+    match padFor bodyLen with
+    | some k => tail == List.replicate k '='
+    | none => false
+  else tail.isEmpty
+
+/-- strict decoder: `body` is the text up to the first `'='`, `tail` the rest. -/
 def b64Decode (o : B64Opts) (cs : List Char) : Option (List Nat) :=
   let body := cs.takeWhile notPad
   let tail := cs.dropWhile notPad
-  let okTail : Bool :=
-    if o.pad then
-      match padFor body.length with
-      | some k => tail == List.replicate k '='
-      | none => false
-    else tail.isEmpty
-  if okTail then
+  if tailOk o.pad body.length tail then
     match b64Vals o.url body with
     | some vs => unsextets vs
     | none => none
@@ -251,22 +252,33 @@ inductive Step where
   | char (c : Nat) (rest : List Nat)
 deriving Repr, DecidableEq
 
+/-- smallest code point that needs `Nb` bytes. Only used by the `fix = true` variant below,
+    which mirrors the patch proposed in `notes/findings/C37-1.md` (HEAD has no such test). -/
+def minCode : Nat → Nat
+  | 2 => 0x80
+  | 3 => 0x800
+  | 4 => 0x10000
+  | _ => 0
+
 /-- `continuation(Code, Chars, Nb)`:
     * clause 1 (`Nb = 1`): `char_code(H, Code)` — an exception for a non-scalar code — and the
-      decoding continues with the remaining bytes;
+      decoding continues with the remaining bytes (`min` is `0` for the code at HEAD; in the
+      patched variant a code below `min`, i.e. an overlong form, gives U+FFFD instead);
     * clause 2: the next byte is `10xxxxxx`: `NextCode is (Code << 6) \/ (Byte - 0x80)`;
       if that branch fails, clause 3 is tried on backtracking;
     * clause 3: any next byte is *consumed* and U+FFFD produced;
     * no byte left: failure.
     (The recursive call `decode_utf8(T)` never fails — see `utf8DecodeMech` — so under
     `once/1` no later clause is ever tried after clause 1 or 3 has succeeded.) -/
-def contStep (code : Nat) : Nat → List Nat → Step
+def contStep (min code : Nat) : Nat → List Nat → Step
   | 0, _ => .fail                      -- not reachable: `leading` gives Nb ≥ 1
-  | 1, bs => if isScalar code then .char code bs else .reprErr
+  | 1, bs =>
+    if code < min then .char 0xFFFD bs
+    else if isScalar code then .char code bs else .reprErr
   | _ + 2, [] => .fail
   | nb + 2, b :: r =>
     if b &&& 0xC0 = 0x80 then
-      match contStep ((code <<< 6) ||| (b - 0x80)) (nb + 1) r with
+      match contStep min ((code <<< 6) ||| (b - 0x80)) (nb + 1) r with
       | .fail => .char 0xFFFD r
       | s => s
     else .char 0xFFFD r
@@ -280,17 +292,18 @@ def leading (b : Nat) : Option (Nat × Nat) :=
   else none
 
 /-- one character: clauses 1–4 of `leading`, and on failure of the continuation (or of all
-    four tests) the fifth clause `leading(1, 0xFFFD) --> [_]`. -/
-def mechStep (b : Nat) (rest : List Nat) : Step :=
+    four tests) the fifth clause `leading(1, 0xFFFD) --> [_]`.
+    `fix = false` is the code at HEAD, `fix = true` the proposed patch. -/
+def mechStep (fix : Bool) (b : Nat) (rest : List Nat) : Step :=
   match leading b with
   | some (nb, code) =>
-    match contStep code nb rest with
+    match contStep (if fix then minCode nb else 0) code nb rest with
     | .fail => .char 0xFFFD rest
     | s => s
   | none => .char 0xFFFD rest
 
-theorem contStep_rest_le (code nb : Nat) (bs : List Nat) (c : Nat) (r : List Nat)
-    (h : contStep code nb bs = .char c r) : r.length ≤ bs.length := by
+theorem contStep_rest_le (min code nb : Nat) (bs : List Nat) (c : Nat) (r : List Nat)
+    (h : contStep min code nb bs = .char c r) : r.length ≤ bs.length := by
   induction nb using Nat.strongRecOn generalizing code bs with
   | _ nb ih =>
     match nb, bs with
@@ -299,7 +312,9 @@ theorem contStep_rest_le (code nb : Nat) (bs : List Nat) (c : Nat) (r : List Nat
       simp only [contStep] at h
       split at h
       · cases h; exact Nat.le_refl _
-      · cases h
+      · split at h
+        · cases h; exact Nat.le_refl _
+        · cases h
     | nb + 2, [] => simp [contStep] at h
     | nb + 2, b :: r' =>
       simp only [contStep] at h
@@ -310,13 +325,13 @@ theorem contStep_rest_le (code nb : Nat) (bs : List Nat) (c : Nat) (r : List Nat
           simp; omega
       · cases h; simp
 
-theorem mechStep_rest_le (b : Nat) (rest : List Nat) (c : Nat) (r : List Nat)
-    (h : mechStep b rest = .char c r) : r.length ≤ rest.length := by
+theorem mechStep_rest_le (fix : Bool) (b : Nat) (rest : List Nat) (c : Nat) (r : List Nat)
+    (h : mechStep fix b rest = .char c r) : r.length ≤ rest.length := by
   unfold mechStep at h
   split at h
   · split at h
     · cases h; exact Nat.le_refl _
-    · exact contStep_rest_le _ _ _ _ _ h
+    · exact contStep_rest_le _ _ _ _ _ _ h
   · cases h; exact Nat.le_refl _
 
 /-- outcome of `once(phrase(decode_utf8(Cs), Bs))` -/
@@ -331,19 +346,19 @@ deriving Repr, DecidableEq
 
 set_option linter.unusedVariables false in
 /-- `once(phrase(decode_utf8(Cs), Bs))`. (`Props/C37` proves it never fails.) -/
-def utf8DecodeMech : List Nat → Dec
+def utf8DecodeMech (fix : Bool) : List Nat → Dec
   | [] => .ok []
   | b :: rest =>
-    match h : mechStep b rest with
+    match h : mechStep fix b rest with
     | .fail => .fail
     | .reprErr => .reprErr
     | .char c r =>
-      match utf8DecodeMech r with
+      match utf8DecodeMech fix r with
       | .ok cs => .ok (c :: cs)
       | d => d
 termination_by bs => bs.length
 decreasing_by
-  have := mechStep_rest_le b rest c r h
+  have := mechStep_rest_le fix b rest c r h
   simp; omega
 
 end Scryer.Codec
